@@ -72,8 +72,9 @@ func (its *counter) ResetSnapshot() {
 	its.Snapshot = newCounterSnapshot(its.BaseDatatype)
 }
 
-func (its *counter) Get() int32 {
-	return its.snapshot().Value
+func (its *counter) Get() (ret int32) {
+	its.DoRead(its.TxCtx, func() { ret = its.snapshot().Value })
+	return
 }
 
 func (its *counter) Increase() (int32, errors.OrdaError) {
@@ -93,12 +94,15 @@ func (its *counter) IncreaseBy(delta int32) (int32, errors.OrdaError) {
 	return ret.(int32), nil
 }
 
-func (its *counter) ToJSON() interface{} {
-	return struct {
-		Counter interface{}
-	}{
-		Counter: its.snapshot().ToJSON(),
-	}
+func (its *counter) ToJSON() (ret interface{}) {
+	its.DoRead(its.TxCtx, func() {
+		ret = struct {
+			Counter interface{}
+		}{
+			Counter: its.snapshot().ToJSON(),
+		}
+	})
+	return
 }
 
 // ////////////////////////////////////////////////////////////////
